@@ -147,7 +147,11 @@ def apply(acc, w, action, cid):
             elif kind == "cancel":
                 m = o.cancel_req()
             elif kind == "replace-px":
-                m = o.replace_req(price=o.price + 1.5)
+                # mostly an ordinary move; every third price change goes to (or away from) a limit price of exactly zero, which
+                # FIX allows (spreads, combos) although the property's quantifier only speaks of positive prices: a boundary
+                newp = o.price + 1.5 if (len(w.trace) % 3 or o.price == 0) else 0.0
+                m = o.replace_req(price=newp)
+                acc.addmap("replace_price_targets", "zero" if newp == 0 else "positive")
             elif kind == "replace-qty-up":
                 m = o.replace_req(qty=o.qty + 5)
             else:
